@@ -127,7 +127,7 @@ def h_standard(ctx):
 
 
 def specs(tier, seed, concrete=False):
-    rows, info = _rows(tier, seed)
+    rows, info = ([], {}) if concrete else _rows(tier, seed)       # replays pin every dimension by value: no rows needed
     global BOUNDS_INFO
     BOUNDS_INFO = info
     return [
